@@ -986,3 +986,54 @@ func checkPrestatOnlyDirectories(c *core.Ctx) {
 		c.Undecided("R18.8", "pre-open lookup of the WASI functions", 0, "not found")
 	}
 }
+
+// checkFuncrefGlobalImportPinsExporter (R09.9): linking a funcref global records the exporting instance in the importer
+// (the value is a raw pointer into the exporter's engine objects, and with the interpreter the global itself has no owner).
+func checkFuncrefGlobalImportPinsExporter(c *core.Ctx) {
+	p := c.Pkg("internal/wasm")
+	if p == nil {
+		return
+	}
+	info := p.TypesInfo
+	found := false
+	core.AllFuncDecls(p, func(fd *ast.FuncDecl) {
+		ast.Inspect(fd.Body, func(x ast.Node) bool {
+			cc, ok := x.(*ast.CaseClause)
+			if !ok || len(cc.List) == 0 || constNameOf(info, cc.List[0]) != "ExternTypeGlobal" {
+				return true
+			}
+			// only the linking arm: it stores into the importer's Globals
+			links := false
+			ast.Inspect(cc, func(y ast.Node) bool {
+				if as, ok := y.(*ast.AssignStmt); ok && len(as.Lhs) == 1 {
+					if ix, ok := as.Lhs[0].(*ast.IndexExpr); ok && strings.HasSuffix(core.ExprStr(ix.X), ".Globals") {
+						links = true
+					}
+				}
+				return true
+			})
+			if !links {
+				return true
+			}
+			found = true
+			pins := false
+			ast.Inspect(cc, func(y ast.Node) bool {
+				call, ok := y.(*ast.CallExpr)
+				if !ok || !core.IsBuiltin(info, call, "append") || len(call.Args) < 2 {
+					return true
+				}
+				if t := info.Types[call.Args[1]].Type; t != nil && strings.HasSuffix(t.String(), "wasm.ModuleInstance") {
+					pins = true
+				}
+				return true
+			})
+			c.Check(pins, "R09.9", "linking a global in "+fd.Name.Name+" records the exporting instance for reference-typed values", cc.Pos(),
+				"the arm appends the exporting instance to a keep-alive list of the importer",
+				"the global import arm only copies the *GlobalInstance: with the interpreter nothing then references the exporting instance from the importer, and a funcref value (a raw pointer into the exporter's function objects) dangles after the exporter is closed and collected – call_indirect calls a function of an unrelated later instance")
+			return true
+		})
+	})
+	if !found {
+		c.Undecided("R09.9", "global import arm of the linker", 0, "not found")
+	}
+}
